@@ -265,6 +265,17 @@ else:
             args = get_args(expected)
             non_none_args = [arg for arg in args if arg is not type(None)]
 
+            # A value that already is an instance of one of the members keeps its
+            # type: "123" stays a string in Union[int, str] instead of being
+            # coerced by whichever member happens to be listed first
+            for union_type in non_none_args:
+                if (
+                    inspect.isclass(union_type)
+                    and isinstance(value, union_type)
+                    and not (isinstance(value, bool) and union_type is not bool)
+                ):
+                    return value
+
             # Try each type in the union
             validation_errors = []
             for union_type in non_none_args:
